@@ -137,20 +137,6 @@ impl SyncTrackerRes {
             id: uuid,
             name: announced_name,
         };
-        if world
-            .resource::<SyncTrackerRes>()
-            .pushed_component_from_network
-            .get(&change_id)
-            .is_some()
-        {
-            debug!(
-                "Skipped component from network, already pushed: {}v{} - {}",
-                e_id.index(),
-                e_id.generation(),
-                name
-            );
-            return false;
-        }
         if is_value_different(previous_value, &*component_data) {
             world
                 .resource_mut::<SyncTrackerRes>()
